@@ -19,6 +19,7 @@ type rdesc struct {
 	isTyp   bool  // a reflect.Type descriptor
 	ptr     *Term // set when the value is *ptr (so that Field can address the field heap directly)
 	dynamic bool  // made from an interface value: the dynamic type is not statically known
+	valid   *Term // when set: the Value is the zero Value unless this condition holds
 }
 
 func isReflectType(t types.Type) bool {
@@ -193,6 +194,16 @@ func (x *Exec) callReflect(call *ast.CallExpr, fn *types.Func, recv *Term, st *S
 		}
 		panic(unsupported("reflect.Type." + name))
 	}
+	if d.valid != nil {
+		// Elem() of a nil pointer is the zero Value: Kind() is Invalid, IsValid() false, anything else panics
+		switch name {
+		case "Kind":
+			return []Term{ite(*d.valid, intLit(kindOf(d.typ)), intLit(0))}
+		case "IsValid":
+			return []Term{*d.valid}
+		}
+		x.safety(st, "reflect-nil", *d.valid, "reflect.Value."+name+" on the zero Value (Elem of a nil pointer) panics", call.Pos())
+	}
 	if d.dynamic {
 		v := d.load(st)
 		switch name {
@@ -222,9 +233,9 @@ func (x *Exec) callReflect(call *ast.CallExpr, fn *types.Func, recv *Term, st *S
 			panic(unsupported("reflect.Value.Elem on " + d.typ.String()))
 		}
 		ptr := d.load(st)
-		x.safety(st, "reflect-nil", not(eq(ptr, intLit(0))), "reflect.Value.Elem() of a nil pointer yields the zero Value; the following operation panics", call.Pos())
+		valid := not(eq(ptr, intLit(0)))
 		elem := p.Elem()
-		return []Term{x.newRV(&rdesc{typ: elem, addr: true, ptr: &ptr,
+		return []Term{x.newRV(&rdesc{typ: elem, addr: true, ptr: &ptr, valid: &valid,
 			load:  func(s *State) Term { return x.loadPtr(s, ptr, elem) },
 			store: func(s *State, v Term) { x.storePtr(s, ptr, elem, v) }})}
 	case "Field":
